@@ -53,7 +53,7 @@ type purityReply struct {
 	First     string `json:"first,omitempty"`
 }
 
-var otherQueries = []string{"$.a", "$.xs.Count()", "$.m.RemoveKeysByPrefix(\"a\")", "$.xs[@.k.Greater(0)]", "$.nums.Sum(1)", "$.xs.Select(\"$.k\")"}
+var otherQueries = []string{"$.tiny.Divide(7)", "$.tiny.Divide($.n)", "$.a", "$.xs.Count()", "$.m.RemoveKeysByPrefix(\"a\")", "$.xs[@.k.Greater(0)]", "$.nums.Sum(1)", "$.xs.Select(\"$.k\")"}
 
 func evalStr(op mpath.Operation, data any) (out string) {
 	defer func() {
@@ -178,6 +178,9 @@ func c11(c *Ctx) {
 		"$.m.Select(\"$\")", "$.m.Select(\"$.AsArray().Count()\")", "$.m.Select(\"$\").First()", "$.m.Count()", "$.m.Sum()",
 		// filters applied to what a function handed back — the caller's own inner arrays for First / Last / Index
 		"$.grid.First()[@.Greater(3)]", "$.grid.Last()[@.Less(4)]", "$.grid.Index(0)[@.Greater(3)].Count()", "$.grid.First()[@.Greater(3)].Sum()", "$.grid.Index(1)[OR,@.Equal(7),@.Less(2)]",
+		"$.n.Divide(3)", "$.a.Divide(3)", "$.nums.Average()", "$.a.Divide(7).Add($.n)",
+		// runs of filters in which an earlier filter keeps everything and a later one drops an element that is followed by a kept one
+		"$.nums[@.IsNotNull()][@.Greater(1)]", "$.grid.First()[@.IsNotNull()][@.Less(5)]", "$.xs[@.k.IsNotNull()][@.k.Greater(0)]", "$.nums[@.IsNotNull()][@.IsNotNull()][@.Less(3)].Count()", "$.typed[@.IsNotNull()][@.Greater(1)]",
 		"$.xs.First().tags[@.Equal(\"y\")]", "$.xs.Last().tags[@.Equal(\"y\")].Count()", "$.grid.AsArray().First().First()[@.Greater(3)]", "$.grid.Select(\"$[@.Greater(3)]\")", "$.grid.First().AsArray().First()[@.Less(5)]",
 	}
 	type pc struct {
@@ -186,6 +189,7 @@ func c11(c *Ctx) {
 		collision bool
 	}
 	var cases []pc
+	freshIdx := map[int]bool{}
 	for i := 0; i < n; i++ {
 		nums := []*D{}
 		for j, m := 0, r.Intn(5); j < m; j++ {
@@ -234,18 +238,36 @@ func c11(c *Ctx) {
 			grid = append(grid, h.SliceAny(row...))
 		}
 		doc := h.Obj("m", h.Obj(mkv...), "grid", h.SliceAny(grid...), "xs", h.SliceAny(xs...), "nums", h.SliceAny(nums...), "dec", h.Slice("dec", decs...), "typed", h.TypedSlice(typed...),
-			"s", h.Str(g.pick(genStrings)), "n", g.randNum(), "a", h.FloatD(1))
+			"s", h.Str(g.pick(genStrings)), "n", g.randNum(), "a", h.FloatD(1), "tiny", h.Dec(12, -17))
 		q := qs[r.Intn(len(qs))]
 		if r.Intn(4) == 0 {
 			q = g.randQuery(2)
 		}
 		cases = append(cases, pc{q, doc, collision})
+		if i < 16 {
+			// the same document with a division whose quotient does not terminate, in a process of its
+			// own: nothing evaluated earlier in the process can have prepared the ground
+			cases = append(cases, pc{[]string{"$.a.Divide(3)", "$.n.Divide(7)", "$.nums.Average()", "$.a.Divide(3).Add(1)"}[i%4], doc, false})
+			freshIdx[len(cases)-1] = true
+		}
 	}
 	jobs := make([]h.Job, len(cases))
 	for i, cs := range cases {
 		jobs[i] = h.Job{Kind: "purity", Payload: hex.EncodeToString([]byte(cs.q)) + "\t" + cs.d.String() + "\t" + fmt.Sprint(3+r.Intn(48))}
 	}
 	replies := h.RunJobs(jobs, 12)
+	{
+		var fj []h.Job
+		var fi []int
+		for i := range cases {
+			if freshIdx[i] {
+				fj, fi = append(fj, jobs[i]), append(fi, i)
+			}
+		}
+		for k, rep := range h.RunJobsFresh(fj, 12) {
+			replies[fi[k]] = rep
+		}
+	}
 	for i, cs := range cases {
 		c.Evals++
 		line := replies[i]
